@@ -385,6 +385,24 @@ def assembled_case(ctx, case):
             ctx.fail('pattern_changed_between_updates', dict(case=case, jac=key, before=len(pat0[key]),
                                                              after=len(pattern(getattr(dae, key)))),
                      sig=dict(jac=key, ipadd=case['ipadd']))
+    # ---- the stored pattern (what restore_sparse rebuilds the matrices from) covers every entry ---------------
+    for key in ('fx', 'fy', 'gx', 'gy'):
+        try:
+            stored = set(zip((int(i) for i in dae.triplets.ijac[key]), (int(j) for j in dae.triplets.jjac[key])))
+        except Exception:
+            continue
+        tpl = dae.tpl.get(key) if hasattr(dae, 'tpl') else None
+        tpl_pat = pattern(tpl) if tpl is not None else stored
+        mat = dense(getattr(dae, key)) if getattr(dae, key).size[0] * getattr(dae, key).size[1] else np.zeros((0, 0))
+        nz = set(zip(*(int_arr.tolist() for int_arr in np.nonzero(mat)))) if mat.size else set()
+        missing = sorted(nz - stored)
+        missing_tpl = sorted(nz - set(tpl_pat))
+        if missing or missing_tpl:
+            i, j = (missing or missing_tpl)[0]
+            ro, co = (0 if key[0] == 'f' else n), (0 if key[1] == 'x' else n)
+            ctx.fail('stored_pattern_lacks_a_nonzero_entry',
+                     dict(case=case, jac=key, row=dae.xy_name[ro + i], col=dae.xy_name[co + j], value=float(mat[i, j]),
+                          missing_in_triplets=len(missing), missing_in_template=len(missing_tpl)), sig=dict(jac=key))
     # ---- islanded-bus patch ----------------------------------------------------------------------
     if ss.Bus.n_islanded_buses:
         ctx.count('assembled:with_islanded_bus')
